@@ -59,11 +59,17 @@ def monitor(sc, r):
         v.append(('closed_once_last', rep))
     if kind != 'server' and r['delivered_after_closed']:
         v.append(('no_delivery_after_closed', r['delivered_after_closed']))
+    elif r['delivered_while_closing']:
+        # "Do not handle messages when closing/closed": nothing is delivered once CLOSING was reported (theorem C10_closing_state_inert)
+        v.append(('no_delivery_once_closing', r['delivered_while_closing']))
+    ag = r.get('after_grace')
+    if ag and ag['state'] == 'CLOSING':
+        v.append(('closing_reaches_closed', {'state_after_disconnect_timeout': ag['state'], 'in_registry': ag['in_registry'], 'reported': rep}))
     if kind != 'server' and r['written_at_closed'] is not None and r['written'] > r['written_at_closed']:
         v.append(('send_after_closed_noop', [r['written_at_closed'], r['written']]))
     # registry at quiescence: end of the scenario, nothing runnable (settled), no close in progress
     if kind != 'server' and not r['close_pending'] and rep is not None:
-        should = r['writer_open'] or r['in_open_connection']
+        should = r['writer_open'] or (r['in_open_connection'] and r['state'] == 'CONNECTING')
         if r['in_registry'] != should and r['nconns_seen'] + r['registry_size'] > 0:
             v.append(('registry_exact', {'in_registry': r['in_registry'], 'writer_open': r['writer_open'], 'attempt': r['attempt'],
                                          'state': r['state'], 'in_open_connection': r['in_open_connection']}))
@@ -160,6 +166,12 @@ def systematic():
         bases.append(('server', [['create'], ['conn_ok', 'ok'], ['start_reader'], ['feed', 'msg'], end, ['feed', 'msg'], ['create'],
                                  ['conn_ok', 'ok'], ['start_reader'], ['feed', 'msg']]))
     bases += [('server', [['create'], ['conn_fail'], ['create'], ['conn_timeout'], ['create'], ['cancel']])]
+    for kind, pre in (('out', [['create'], ['conn_ok', 'ok']]), ('resp', [['create'], ['conn_ok', 'ok']]), ('in', [['accept'], ['init', 'peerinit_P']]),
+                      ('in', [['accept'], ['init', 'pierce_known']]), ('server', [['create'], ['conn_ok', 'ok'], ['start_reader']])):
+        for order in ('feed_first', 'disc_first'):
+            bases.append((kind, pre + [['feed', 'msg'], ['tail_disc', order], ['feed', 'msg'], ['send', 'ok']]))
+        for mode in ('ok', 'fail'):
+            bases.append((kind, pre + [['qsend', 'ok'], ['qsend', mode], ['feed', 'msg'], ['qsend', 'ok'], ['send', 'ok']]))
     for kind, acts in bases:
         for obf in (False, True):
             if kind == 'server' and obf:
@@ -176,6 +188,9 @@ def systematic():
                             a.insert(min(pos + 2, len(a)), ['close_done'])
                     typ = 'P'
                     out.append({'kind': kind, 'obf': obf, 'typ': typ, 'wch': wch, 'acts': a})
+                    if not wch and pos is None:
+                        # the transport's close waiter is already done: wait_closed() returns without yielding
+                        out.append({'kind': kind, 'obf': obf, 'typ': typ, 'wch': False, 'wci': True, 'acts': list(acts)})
     for kind in ('out', 'resp'):
         for typ in ('F', 'D'):
             out.append({'kind': kind, 'obf': False, 'typ': typ, 'wch': False,
@@ -192,7 +207,8 @@ POOL = {
     'server': [['conn_ok', 'ok'], ['conn_ok', 'ok'], ['conn_fail'], ['conn_timeout'], ['cancel'], ['start_reader'], ['start_reader'], ['create']],
 }
 COMMON = [['feed', 'msg'], ['feed', 'msg'], ['feed', 'eof'], ['feed', 'partial'], ['feed', 'err'], ['feed', 'timeout'], ['feed', 'undecodable'],
-          ['send', 'ok'], ['send', 'ok'], ['send', 'fail'], ['send', 'hang'], ['disc', 'REQUESTED'], ['disc', 'REQUESTED'], ['disc', 'UNKNOWN'],
+          ['send', 'ok'], ['send', 'ok'], ['send', 'fail'], ['send', 'hang'], ['qsend', 'ok'], ['qsend', 'fail'], ['tail_disc', 'feed_first'],
+          ['tail_disc', 'disc_first'], ['disc', 'REQUESTED'], ['disc', 'REQUESTED'], ['disc', 'UNKNOWN'],
           ['close_done'], ['close_done']]
 
 
@@ -211,7 +227,7 @@ def random_scenario(rng):
         else:
             acts.append(list(rng.choice(COMMON)))
     return {'kind': kind, 'obf': kind != 'server' and rng.random() < 0.4, 'typ': rng.choice(['P', 'P', 'F', 'D']),
-            'wch': rng.random() < 0.4, 'acts': acts}
+            'wch': rng.random() < 0.4, 'wci': rng.random() < 0.2, 'acts': acts}
 
 
 # ---------------------------------------------------------------------------------------
